@@ -148,6 +148,20 @@ fn resolver_body(buf4096: &[u8; 4096], count: usize, wanted: &Name) -> Option<u3
     None
 }
 
+/// some stacks (and every attacker) send more than one OPT pseudo-record, anywhere in the additional section
+/// (drawn from a stream of its own, so that the other datagrams of the family stay what they were)
+fn extra_opt_records(mut r: Rng, p: &mut PktM) {
+    if !r.chance(1, 5) {
+        return;
+    }
+    for _ in 0..r.usize(1, 3) {
+        let opts = if r.bool() { vec![] } else { let n = r.usize(0, 9); vec![(r.int(16) as u16, r.bytes(n))] };
+        let rec = RecSem { name: vec![], rtype: 41, class: *r.pick(&[0u16, 512, 1232, 4096, 65535]), flush: false, ttl: if r.bool() { 0 } else { r.int(32) as u32 }, rd: Rd::Fields(vec![F::Pairs(opts)]) };
+        let at = r.usize(0, p.secs[2].len());
+        p.secs[2].insert(at, rec);
+    }
+}
+
 fn datagram(ctx: &Ctx, family: &str, idx: u64) -> Vec<u8> {
     let seed = ctx.seed;
     let mut r = ctx.rng(family, idx);
@@ -195,6 +209,7 @@ fn datagram(ctx: &Ctx, family: &str, idx: u64) -> Vec<u8> {
                 let s = *g.r.pick(&[0usize, 2]);
                 p.secs[s].push(rec);
             }
+            extra_opt_records(ctx.rng("extra-opt", idx), &mut p);
             encode(&p.to_wire(0), Plan::Canonical).bytes
         }
         "hostile-query" => {
@@ -218,6 +233,7 @@ fn datagram(ctx: &Ctx, family: &str, idx: u64) -> Vec<u8> {
                 let opts = if g.r.bool() { vec![] } else { let n = g.r.usize(0, 12); vec![(g.r.int(16) as u16, g.r.bytes(n))] };
                 p.edns = Some(EdnsM { udp, version: *g.r.pick(&[0u8, 0, 1, 255]), opts });
             }
+            extra_opt_records(ctx.rng("extra-opt", idx), &mut p);
             encode(&p.to_wire(0), Plan::Canonical).bytes
         }
         "valid" => {
